@@ -17,7 +17,7 @@ MANIFEST = dict(
          "model, which covers all wake-up orders, jitter and any number of waiters. Tie = trace validation: the real task set started by GeckoAsyncSpa._connect on the "
          "virtual-time loop, queue instrumented from outside, arrival scripts of known / unknown / unsolicited / mis-addressed / malformed datagrams; every observed "
          "put / pop / mark / unhandled-consumer step must be enabled in the model and have the model's outcome."
-         " Since session 3: the connection's packet consumer is also modelled at the byte level as the long-lived object it is (Model/PacketConsumer.lean over C04's regex model): consume_eq_spec (over any history and whatever the object held before, what is re-queued is exactly the DATAS of the frames that parse and carry this connection's address and identifier pair), misaddressed_frame_no_effect / addressed_frame_requeued for arbitrary payloads; tied by feeding histories to the real handler + the real _async_on_packet exactly as consume() does, plus a re-queue conservation monitor on the whole task set. Session 4: the client event handler really suspends (0/250/0/120 ms by round) so peek and pop are separated by other consumers turns; a consumer task that ends with an exception is a violation. The atomic consumer step of the model is itself proved: the suspension skeletons of the three consuming coroutines are regenerated from the source, a static analysis proved sound for every trace (scan_sound) shows no suspension point between looking at the head and popping it, and atomic_sections lifts that to every schedule of the event loop (peek_pop_atomic_in_every_schedule). The packet-consumer correspondence observes the real protocol queue; a backlog run of 150 datagrams with a conservation check at the end. Session 5: unwrapper_overwrites_its_fields_for_every_datagram (+ _traces) over the regenerated skeleton of the unwrapper's handle.",
+         " Since session 3: the connection's packet consumer is also modelled at the byte level as the long-lived object it is (Model/PacketConsumer.lean over C04's regex model): consume_eq_spec (over any history and whatever the object held before, what is re-queued is exactly the DATAS of the frames that parse and carry this connection's address and identifier pair), misaddressed_frame_no_effect / addressed_frame_requeued for arbitrary payloads; tied by feeding histories to the real handler + the real _async_on_packet exactly as consume() does, plus a re-queue conservation monitor on the whole task set. Session 4: the client event handler really suspends (0/250/0/120 ms by round) so peek and pop are separated by other consumers turns; a consumer task that ends with an exception is a violation. The atomic consumer step of the model is itself proved: the suspension skeletons of the three consuming coroutines are regenerated from the source, a static analysis proved sound for every trace (scan_sound) shows no suspension point between looking at the head and popping it, and atomic_sections lifts that to every schedule of the event loop (peek_pop_atomic_in_every_schedule). The packet-consumer correspondence observes the real protocol queue; a backlog run of 150 datagrams with a conservation check at the end. Session 5: unwrapper_overwrites_its_fields_for_every_datagram (+ _traces) over the regenerated skeleton of the unwrapper's handle. Round 14: an abandoned connection attempt ending while a second connection of the same manager is live - the live connection keeps consuming.",
     note="partial: the head-of-line bound is proved under the fairness hypothesis 'the unhandled consumer runs when its 100 ms timer is due' (no event-loop stall; "
          "real timer skew is outside); the safety clauses need no such hypothesis. Trusted: Lean kernel; asyncio semantics (no pre-emption between awaits); the harness "
          "instrumentation (monkeypatched AsyncPeekableQueue recording caller frames). A consumer whose async_handle raises on a malformed body dies (Python task semantics); "
@@ -347,6 +347,94 @@ def packet_consumer_histories(ctx):
     ctx.sample({"packet_consumer": [[l[:80], a] for l, a in zip(lines[:4], impl[:4])]})
 
 
+def explore_overlapping_attempts():
+    """the consumers of a LIVE connection while an ABANDONED attempt of the same manager ends: the sequence pump's connection attempt
+    is parked in the client's handler between two handshake steps, the user resets and connects again from another task (a second,
+    complete connection), then the parked attempt is released and fails. Afterwards the live connection must still take everything off
+    its queue: a change the spa reports is applied, a datagram nobody accepts is discarded, pings go on being answered."""
+    import fakenet
+    import rig as _rig
+    from geckolib import GeckoAsyncSpaMan
+    from props import c10
+    res = {}
+
+    async def body(loop):
+        gate = asyncio.Event()
+        parked = {"n": 0}
+
+        class Man(GeckoAsyncSpaMan):
+            async def handle_event(self, event, **kw):
+                if "CONNECTION_GOT_FIRMWARE_VERSION" in str(event) and parked["n"] == 0:
+                    parked["n"] = 1
+                    await gate.wait()
+        sim = fakenet.make_sim(c10.SNAP)
+        net = fakenet.Network(loop, sim, phases=[], seed=1)
+        loop.network = net
+        m = Man("uuid-1", spa_identifier=c10.IDENT, spa_address="10.0.0.9", spa_name="Spa")
+        await m.__aenter__()
+        for _ in range(400):
+            await asyncio.sleep(0.05)
+            if parked["n"]:
+                break
+        res["parked"] = bool(parked["n"])
+        await m.async_reset()
+        try:
+            await asyncio.wait_for(m.async_connect(c10.IDENT, "10.0.0.9"), 300)
+        except Exception as e:  # noqa
+            res["second_connect"] = f"{type(e).__name__}: {e}"
+        res["connected"] = m.facade is not None
+        if m.facade is None:
+            gate.set()
+            await m.__aexit__(None, None, None)
+            return
+        spa = m.facade.spa
+        gate.set()                                  # the abandoned attempt goes on, finds its protocol gone, and fails
+        await asyncio.sleep(3.0)
+        # the live connection: a reported change, an unknown datagram, pings
+        tag = next(t for t, a in sim.structure.accessors.items() if a.read_write is not None and a.type == "Enum" and a.items
+                   and len([x for x in a.items if x]) >= 2 and t.startswith("Ud") and t in spa.accessors)
+        sa = sim.structure.accessors[tag]
+        labs = [x for x in sa.items if x]
+        new = labs[0] if sa.value != labs[0] else labs[1]
+        import builtins
+        real_print = builtins.print
+        builtins.print = lambda *a, **k: None
+        sim._send_structure_change = True
+        try:
+            sa.value = new
+        finally:
+            sim._send_structure_change = False
+            builtins.print = real_print
+        queued = list(sim._socket._send_handlers)
+        sim._socket._send_handlers.clear()
+        live = [x for x in net.transports if not x.closed]
+        for x in live[-1:]:
+            x.deliver(b"<WHATS>this</WHATS>", fakenet.SIM_ADDR)
+            for hdl, _d in queued:
+                net.push(x, hdl.send_bytes)
+        await asyncio.sleep(3.0)
+        res["change_applied"] = str(spa.accessors[tag].value) == str(new)
+        await asyncio.sleep(3 * 70.0)
+        res["answering_pings"] = spa.is_responding_to_pings
+        res["state"] = str(m.spa_state).split(".")[-1]
+        res["spa_tasks"] = sorted(t.get_name() for t in asyncio.all_tasks() if t.get_name().startswith("SPA:") and not t.done())
+        await m.__aexit__(None, None, None)
+    vloop.run_virtual(body, stable=True)
+    return res
+
+
+def check_overlapping_attempts(ctx):
+    r = explore_overlapping_attempts()
+    ctx.count("evaluations")
+    ctx.cov["overlapping_attempts"] = {k: r.get(k) for k in ("parked", "connected", "change_applied", "answering_pings", "state")} | {"spa_tasks": len(r.get("spa_tasks", []))}
+    if not r.get("parked") or not r.get("connected"):
+        ctx.obligation_broken("harness:overlapping-attempts", {k: r.get(k) for k in ("parked", "connected", "second_connect")})
+    elif not r.get("change_applied") or not r.get("answering_pings") or len(r.get("spa_tasks", [])) < 7:
+        ctx.violation("overlapping-attempts:live-connection-stops-consuming", {"kind": "overlapping-attempts"},
+                      "the live connection still applies a reported change, answers pings and runs its seven tasks after the abandoned attempt has ended",
+                      {k: r.get(k) for k in ("change_applied", "answering_pings", "state", "spa_tasks")})
+
+
 def run(ctx):
     st = translate.run(["Skeletons", "WireFormats", "WirePins"])
     ctx.cov["translator"] = st
@@ -355,6 +443,10 @@ def run(ctx):
             ctx.obligation_broken(f"translate:{k}", v)
     ctx.lean_obligations("GeckoModel.Properties.C07")
     packet_consumer_histories(ctx)
+    try:
+        check_overlapping_attempts(ctx)
+    except Exception as e:  # noqa
+        ctx.obligation_broken("harness:overlapping-attempts", f"{type(e).__name__}: {e}")
     rng = ctx.rng
     classes = handler_classes()
     n_runs = 6 if ctx.quick else 60
@@ -463,6 +555,11 @@ def run(ctx):
 
 
 def replay(inp):
+    if inp.get("kind") == "overlapping-attempts":
+        from common import Ctx
+        c = Ctx("C07", "quick", 0)
+        check_overlapping_attempts(c)
+        return bool(c.violations), c.violations[0]["observed"] if c.violations else "the live connection keeps consuming"
     from common import Ctx
     ctx = Ctx("C07", "quick", 0)
     if inp.get("kind") == "packet-consumer":
